@@ -249,6 +249,12 @@ def roundtrip(bib, text, eo, history=False):
         emw, dmw = _LONG_LIVED[key]
     else:
         emw, dmw = m.LatexEncodingMiddleware(allow_inplace_modification=False, **eo), m.LatexDecodingMiddleware(allow_inplace_modification=False)
+    if len(text) % 2:
+        # the long-lived objects have converted THIS library before, when its blocks held other text
+        keep_vals = (lib.blocks[0].fields[0].value, lib.blocks[1].value)
+        lib.blocks[0].fields[0].value = lib.blocks[1].value = "warm-up \u00e9 & 100%"
+        dmw.transform(emw.transform(lib))
+        lib.blocks[0].fields[0].value, lib.blocks[1].value = keep_vals
     enc = emw.transform(lib)
     dec = dmw.transform(enc)
     b0, b1 = dec.blocks[0], dec.blocks[1]
